@@ -69,6 +69,29 @@ Theorem C04_turn_enters_ready_head : forall s c rest,
 Proof. exact turn_enters_ready_head. Qed.
 Print Assumptions C04_turn_enters_ready_head.
 
+(* ... and the receiver is never stuck: a queued call with nothing waiting always has a doNextCall scheduled *)
+Theorem C04_receiver_never_stuck : forall ops,
+  inq (run ops) <> [] -> waiting (run ops) = [] -> evq (run ops) <> [].
+Proof. exact receiver_never_stuck. Qed.
+Print Assumptions C04_receiver_never_stuck.
+
+(* from every reachable state, releasing the stalls, delivering the bytes, resolving the gifts and running turns
+   (no new calls, no failing gifts) empties the whole pipeline ... *)
+Theorem C04_can_always_settle : forall ops,
+  exists more, Forall settle_op more /\ pipeline (run (ops ++ more)) = [].
+Proof. exact can_always_settle. Qed.
+Print Assumptions C04_can_always_settle.
+
+(* ... so every issued call can still be brought to a conclusion: it is entered (exactly once, by C04_at_most_once)
+   or explicitly refused -- none is lost, whatever was stalled, blocked or rejected before *)
+Theorem C04_eventually_entered_or_refused : forall ops,
+  exists more, Forall settle_op more /\
+    forall c, c < count_issues ops ->
+      In c (entered (run (ops ++ more))) \/ In (Failed c) (history (run (ops ++ more))) \/
+      In (Rejected c) (history (run (ops ++ more))).
+Proof. exact eventually_entered_or_refused. Qed.
+Print Assumptions C04_eventually_entered_or_refused.
+
 (* calls on a LocalReferenceable (no connection; ordered by foolscap.eventual alone) are entered in issue order:
    entered ++ still-queued = 0, 1, ..., n-1 *)
 Theorem C04_local_calls_in_order : forall ops,
